@@ -480,7 +480,7 @@ POOL = [
 
 class Entry:
     """a schema prepared for the check"""
-    __slots__ = ("raw", "parsed", "named", "coq_schema", "coq_env", "cyclic", "finish", "ht", "cost", "tag", "has_decimal")
+    __slots__ = ("raw", "parsed", "named", "coq_schema", "coq_env", "cyclic", "finish", "ht", "cost", "tag", "has_decimal", "has_logical", "has_union")
 
 
 def prepare(raw, tag):
@@ -496,7 +496,23 @@ def prepare(raw, tag):
     e.cost = max_draws(e.parsed, e.named)
     e.tag = tag
     e.has_decimal = '"decimal"' in json.dumps(e.raw)
+    e.has_logical = '"logicalType"' in json.dumps(e.raw)
+    e.has_union = has_union(e.parsed) or any(has_union(v) for v in e.named.values())
     return e
+
+
+def has_union(s):
+    if isinstance(s, list):
+        return True
+    if isinstance(s, dict):
+        t = s.get("type")
+        if t == "array":
+            return has_union(s["items"])
+        if t == "map":
+            return has_union(s["values"])
+        if t in ("record", "error"):
+            return any(has_union(f["type"]) for f in s["fields"])
+    return False
 
 
 def valid_for_statement(raw):
@@ -684,8 +700,10 @@ def predicate(entry, schema_arg, vals, n_expected, check_container=True):
             return False, "read-back-stops-early", "reader consumed %d of %d bytes" % (fi.tell(), len(data))
         if not read_equiv(v, rd[1], entry.parsed, entry.named):
             return False, "read-back-differs", "read back %r for generated %r" % (rd[1], v)
-        if not entry.has_decimal:
-            # what was read back (the logical Python object) is itself writable and stable
+        if not entry.has_decimal and not (entry.has_logical and entry.has_union):
+            # what was read back (the logical Python object) is itself writable and stable.  Not demanded by the statement; left out
+            # where the writer's union choice (C09) may file the logical object under another branch (a datetime is a date) and
+            # for decimals (reading rounds to the precision)
             fo2 = io.BytesIO()
             w2 = attempt(lambda: fastavro.schemaless_writer(fo2, schema_arg, rd[1]))
             if w2[0] != "ok":
@@ -748,6 +766,18 @@ def blame(entry, vals):
     return None
 
 
+SIG_ISO = "C20:validate+writer:str-datum-in-union-with-int-date-branch:ValueError"
+
+
+def classify(entry, vals, symptom, why):
+    """signature of a failing predicate: one per defect"""
+    if "Invalid isoformat string" in (why or "") and entry.has_union:
+        # prepare_date (applied by _validate to every int-date candidate of a union) parses ANY str as an ISO date and raises
+        return SIG_ISO
+    b = blame(entry, vals) if symptom in ("value-not-of-the-type", "does-not-validate") else None
+    return "C20:generate:%s:%s" % (symptom, b or features(entry))
+
+
 # ------------------------------------------------------------------ cases
 def stream_of(rec):
     return [d for _, _, d in rec]
@@ -801,9 +831,7 @@ def evaluate(ctx, entry, case, st, vals, rec, mismatch, m, corr="corr:gen"):
         holds, symptom, why = predicate(entry, case["schema_arg"], vals, case["n"])
         t = impl_text(case, vals)
         if not holds:
-            b = blame(entry, vals) if symptom in ("value-not-of-the-type", "does-not-validate") else None
-            ctx.violation(corr, cj, impl=t[:1500], model=(m or "")[:1500],
-                          signature="C20:%s:%s:%s" % ("generate_one" if case["mode"] == "one" else "generate_many", symptom, b or feat),
+            ctx.violation(corr, cj, impl=t[:1500], model=(m or "")[:1500], signature=classify(entry, vals, symptom, why),
                           found_input=True, detail=why)
         elif t != m:
             ctx.violation(corr, cj, impl=t[:1500], model=(m or "")[:1500], signature="C20:model-differs:" + feat, found_input=False,
